@@ -287,7 +287,11 @@ def convert_inv(execution, inv_rec):
             for n in [x for x in body if x["k"] != "log"]:
                 k += 1
                 st = at.get(path_id(f"{path}/b{bi}/{k}"))
-                if st == "SUCCEEDED" and n["k"] in ("step", "wait"):
+                if st == "SUCCEEDED" and (n["k"] in ("step", "wait", "wfc") or (n["k"] == "cb" and not n.get("between"))):
+                    continue
+                if st == "STARTED" and n["k"] == "step" and not n.get("fail") and n.get("sem") != "AMO":
+                    # an at-least-once attempt that was interrupted (crash): it is run again without a START, like a READY attempt
+                    keep.append("sretry")
                     continue
                 if st is not None:
                     raise Unsupported(f"operation in state {st} at the start of the invocation")
